@@ -978,8 +978,7 @@ func (vc *VC) makeSlice(st *State, elem types.Type, n, c string) T {
 	for _, l := range vc.leaves(elem) {
 		o, nn := vc.newVersion(st, l.key)
 		z := vc.zeroOfSort(l.sort)
-		cell := applyChain(l.chain, "(eaddr "+arr.S+" i)")
-		vc.assume(st, fmt.Sprintf("(forall ((i Int)) (! (=> (and (<= 0 i) (< i %s)) (= (select %s %s) %s)) :pattern ((select %s %s))))", c, nn, cell, z, nn, cell))
+		vc.assume(st, fmt.Sprintf("(forall ((a Int)) (! (=> %s (= (select %s a) %s)) :pattern ((select %s a))))", cellIn(l.chain, "a", arr.S, "0", c), nn, z, nn))
 		vc.assume(st, fmt.Sprintf("(forall ((a Int)) (! (=> (not (= (root a) %s)) (= (select %s a) (select %s a))) :pattern ((select %s a))))", arr.S, nn, o, nn))
 	}
 	return s
